@@ -220,8 +220,8 @@ type cmd struct {
 	verb     string
 	fields   map[fieldID]fval
 	pm       paramMode
-	trailing int  // extra components after the parameter component (signed-Interest style)
-	modTyp   bool // module component of a non-generic type
+	trailing int    // extra components after the parameter component (signed-Interest style)
+	modTyp   bool   // module component of a non-generic type
 	rawName  string // complete Interest name (datasets / odd names); overrides everything else
 	query    []byte // faces/query filter component value (nil: none)
 	inFace   uint64
